@@ -170,11 +170,16 @@ func (sc *Scanner) skipComments(ch int) error {
 	if sc.Peek() == '[' {
 		ch = sc.Next()
 		if sc.Peek() == '[' || sc.Peek() == '=' {
-			var buf bytes.Buffer
-			if err := sc.scanMultilineString(sc.Next(), &buf); err != nil {
-				return sc.Error(buf.String(), "invalid multiline comment")
+			// "--[" "="* "[" opens a long comment; anything else ("--[= x", "--[==") is a short comment
+			var count int
+			count, ch = sc.countSep(sc.Next())
+			if ch == '[' {
+				var buf bytes.Buffer
+				if err := sc.scanMultilineStringBody(count, &buf); err != nil {
+					return sc.Error(buf.String(), "invalid multiline comment")
+				}
+				return nil
 			}
-			return nil
 		}
 	}
 	for {
@@ -288,12 +293,18 @@ func (sc *Scanner) countSep(ch int) (int, int) {
 }
 
 func (sc *Scanner) scanMultilineString(ch int, buf *bytes.Buffer) error {
-	var count1, count2 int
+	var count1 int
 	count1, ch = sc.countSep(ch)
 	if ch != '[' {
 		return sc.Error(string(rune(ch)), "invalid multiline string")
 	}
-	ch = sc.Next()
+	return sc.scanMultilineStringBody(count1, buf)
+}
+
+// scanMultilineStringBody scans the body of a long bracket of level count1; the opening bracket has been consumed.
+func (sc *Scanner) scanMultilineStringBody(count1 int, buf *bytes.Buffer) error {
+	var count2 int
+	ch := sc.Next()
 	if ch == '\n' || ch == '\r' {
 		ch = sc.Next()
 	}
